@@ -226,6 +226,15 @@ func encodeBody(w *W, m *rec.Rec) error {
 				return err
 			}
 			w.Raw(inner)
+			// ONF bundle properties (ofp_bundle_prop_experimenter): type, length (excluding padding), body, pad to 8
+			for _, p := range m.List("properties") {
+				start := w.Len()
+				body := p.Bytes("body")
+				w.U16(p.U16("type"))
+				w.U16(uint16(4 + len(body)))
+				w.Raw(body)
+				w.PadTo8From(start)
+			}
 		}
 	default:
 		return fmt.Errorf("spec: no body encoder for %q", m.K)
@@ -314,7 +323,12 @@ func encodeMatchField(w *W, f *rec.Rec) {
 	if f.Bool("hasmask") {
 		n += len(m)
 	}
-	w.U8(uint8(n))
+	if f.U16("class") == ClassExp { // experimenter id follows the header and counts in the length
+		w.U8(uint8(n + 4))
+		w.U32(f.U32("experimenter"))
+	} else {
+		w.U8(uint8(n))
+	}
 	w.Raw(v)
 	if f.Bool("hasmask") {
 		w.Raw(m)
